@@ -1,5 +1,7 @@
 import LLRP.Model.Codec
 import LLRP.Gen.Schema
+import LLRP.Proofs.DecodeFuel
+import LLRP.Proofs.DecodeSize
 /-!
 # C11 — Decoding arbitrary bytes always terminates with a value or an error
 
@@ -79,6 +81,130 @@ theorem decParam_suffix (S : Schema) (fuel : Nat) (p : Container) (d : Bytes) (v
         simp only [Bool.and_eq_true, decide_eq_true_eq] at hn
         exact ⟨_, rfl, hn.2, hn.1⟩
       · cases h
+
+/-! ## the result does not depend on the fuel cut-off
+
+`decBody … decParam` recurse on explicit fuel and answer `none` when it runs out — the same answer as a decoding
+error. The theorems below show that this is harmless: more fuel never changes a successful result, and from
+`decodeFuel S c d = (2·S.maxSlots + 4)·|d| + 2·|c.slots| + 8` on (the fuel `decode` starts with) the result — value
+**or** error — is the same for every fuel, i.e. an error is never an artefact of fuel exhaustion.
+(One nesting level spends at most `#groups + #slots + 3 ≤ 2·#slots + 3` decrements, every nested body is at least one
+byte shorter than the data it is cut from, and every loop iteration consumes at least one byte.)
+A table-independent bound does not exist: see `fuel_needs_table`. -/
+
+/-- more fuel never changes a successful result -/
+theorem fuel_mono (S : Schema) (n : Nat) (c : Container) (d : Bytes) (v : Val)
+    (h : decBody S n c d = some v) : ∀ m ≥ n, decBody S m c d = some v :=
+  fun m hm => decBody_fuel S _ (by omega) (slope_ok S) n c d v h m (Or.inl hm)
+
+theorem fuel_mono_groups (S : Schema) (n : Nat) (gs : List (List Slot)) (d : Bytes) (r : List (List Val) × Bytes)
+    (h : decGroups S n gs d = some r) : ∀ m ≥ n, decGroups S m gs d = some r :=
+  fun m hm => decGroups_fuel S _ (by omega) (slope_ok S) n gs d r h m (Or.inl hm)
+
+theorem fuel_mono_singles (S : Schema) (n : Nat) (ss : List Slot) (d : Bytes) (r : List (List Val) × Bytes)
+    (h : decSingles S n ss d = some r) : ∀ m ≥ n, decSingles S m ss d = some r :=
+  fun m hm => decSingles_fuel S _ (by omega) (slope_ok S) n ss d r h m (Or.inl hm)
+
+theorem fuel_mono_choice (S : Schema) (n : Nat) (g : List Slot) (d : Bytes) (r : List (List Val) × Bytes)
+    (h : decChoice S n g d = some r) : ∀ m ≥ n, decChoice S m g d = some r :=
+  fun m hm => decChoice_fuel S _ (by omega) (slope_ok S) n g d r h m (Or.inl hm)
+
+theorem fuel_mono_loop (S : Schema) (n : Nat) (g : List Slot) (acc : List (List Val)) (d : Bytes) (k : Nat)
+    (r : List (List Val) × Bytes) (h : decLoop S n g acc d k = some r) : ∀ m ≥ n, decLoop S m g acc d k = some r :=
+  fun m hm => decLoop_fuel S _ (by omega) (slope_ok S) n g acc d k r h m (Or.inl hm)
+
+theorem fuel_mono_param (S : Schema) (n : Nat) (p : Container) (d : Bytes) (r : Val × Bytes)
+    (h : decParam S n p d = some r) : ∀ m ≥ n, decParam S m p d = some r := by
+  intro m hm
+  -- any slope that also pays for `p` itself (which need not be in the table)
+  refine decParam_fuel S (2 * S.maxSlots + 4 + (walk (groupsOf p) + 3)) (by omega) ?_ n p d r (by omega) h m (Or.inl hm)
+  intro ty q hq
+  have := slope_ok S ty q hq
+  omega
+
+/-- a successful decoding at ANY fuel is `decode`'s result: proofs about `decode` never need to look at its fuel -/
+theorem decode_of_decBody (S : Schema) (n : Nat) (c : Container) (d : Bytes) (v : Val)
+    (h : decBody S n c d = some v) : decode S c d = some v := by
+  unfold decode decodeFuel
+  refine decBody_fuel S _ (by omega) (slope_ok S) n c d v h _ (Or.inr ?_)
+  have := walk_groupsOf_le c
+  omega
+
+/-- **the decoder's answer is independent of the fuel cut-off**: from `decodeFuel S c d` on, every fuel gives
+`decode`'s result, be it a value or an error -/
+theorem decode_fuel (S : Schema) (c : Container) (d : Bytes) :
+    ∀ n ≥ decodeFuel S c d, decBody S n c d = decode S c d := by
+  intro n hn
+  cases h : decBody S n c d with
+  | some v => exact (decode_of_decBody S n c d v h).symm
+  | none =>
+    cases h' : decode S c d with
+    | none => rfl
+    | some v =>
+      have := fuel_mono S _ c d v (by simpa [decode] using h') n hn
+      rw [this] at h; cases h
+
+/-- the bound, spelled out -/
+theorem decode_fuel_bound (S : Schema) (c : Container) (d : Bytes) :
+    decodeFuel S c d = (2 * S.maxSlots + 4) * d.length + 2 * c.slots.length + 8 := rfl
+
+/-- in particular an error reported by `decode` is a genuine decoding error: no amount of fuel makes it go away -/
+theorem decode_error_genuine (S : Schema) (c : Container) (d : Bytes) (h : decode S c d = none) :
+    ∀ n, decBody S n c d = none := by
+  intro n
+  cases h' : decBody S n c d with
+  | none => rfl
+  | some v => rw [decode_of_decBody S n c d v h'] at h; cases h
+
+/-- for the regenerated table the slope is 62 -/
+theorem gen_maxSlots : Gen.schema.maxSlots = 29 := by decide +kernel
+
+/-- a bound that ignores the table (such as the former `4·|d| + 8`) cannot work: a message with 8 alternating
+optional / repeatable slots (8 groups) and the empty payload decodes to the empty value, but only from fuel 10 on -/
+def manyGroups : Container :=
+  { name := "M", typeId := 900, isMsg := true,
+    fields := [],
+    slots := [⟨"a", "L", true, false, none⟩, ⟨"b", "K", true, true, none⟩, ⟨"c", "L", true, false, none⟩,
+      ⟨"d", "K", true, true, none⟩, ⟨"e", "L", true, false, none⟩, ⟨"f", "K", true, true, none⟩,
+      ⟨"g", "L", true, false, none⟩, ⟨"h", "K", true, true, none⟩],
+    responseTo := none }
+def leafL : Container :=
+  { name := "L", typeId := 300, isMsg := false,
+    fields := [⟨"x", .scalar 2 8 0 false false false⟩],
+    slots := [],
+    responseTo := none }
+def leafK : Container :=
+  { name := "K", typeId := 301, isMsg := false,
+    fields := [⟨"x", .scalar 2 8 0 false false false⟩],
+    slots := [],
+    responseTo := none }
+theorem fuel_needs_table :
+    decBody [leafL, leafK, manyGroups] (4 * ([] : Bytes).length + 8) manyGroups [] = none ∧
+    (decBody [leafL, leafK, manyGroups] 10 manyGroups []).isSome = true ∧
+    (decode [leafL, leafK, manyGroups] manyGroups []).isSome = true := by decide +kernel
+
+/-! ## the decoded value is linear in the input
+
+Every `decParam` call that contributes a parameter to the result consumed at least one byte that no other parameter at
+the same level consumed (and a nested body is cut out of its parent's bytes), so a value decoded from `d` has at most
+`d.length` parameters: the work and the allocation that end up in a successful result are bounded by the input length.
+(A count of *all* `decParam` calls, failed ones included, would need an instrumented copy of the decoder; the failed
+call is the last one at its level, so that count is at most one more per nesting level.) -/
+
+/-- a parameter decoded from the head of `d`: its nodes are paid for by the bytes it consumed -/
+theorem decParam_nodes (S : Schema) (n : Nat) (p : Container) (d : Bytes) (v : Val) (d' : Bytes)
+    (h : decParam S n p d = some (v, d')) : v.nodes + d'.length ≤ d.length :=
+  decParam_size S n p d v d' h
+
+/-- **a successful decoding of `d` yields at most `d.length` parameters** (`Val.nodes` counts the root as well) -/
+theorem decoded_params_le (S : Schema) (c : Container) (d : Bytes) (v : Val) (h : decode S c d = some v) :
+    v.nodes ≤ d.length + 1 := by
+  have := decBody_size S _ c d v h
+  omega
+
+example : (decode Gen.schema Gen.m_ROAccessReport
+    [0, 240, 0, 25, 0x8d, 1, 2, 3, 4, 5, 6, 7, 8, 9, 10, 11, 12, 0x81, 0, 3, 0x86, 0xd0, 0x8a, 0, 1]).map Val.nodes = some 6 := by
+  decide +kernel
 
 /-- the empty input is rejected by every container that has a required part, accepted as the empty value otherwise:
 non-vacuity of the decoder on the smallest input -/
